@@ -730,6 +730,12 @@ def run(run: Run):
     run.guard('C05.R9', r9_tails_admit_blanks, run, src, g)
     run.rule('C05.R10', 'the lexer tries the token classes on the formula text itself (only blanks at the ends are stripped)')
     run.guard('C05.R10', r10_formula_text_untouched, run, src)
+    from .common import check_rejections_propagate
+    from ..callgraph import get_callgraph as _gcg
+    run.rule('C05.R11', 'the rejection of a formula reaches the caller: no handler on the translation path turns it into a value')
+    run.guard('C05.R11', check_rejections_propagate, run, 'C05.R11', src, _gcg(src),
+              ['AstBuilder.parse', 'CompositeBaseToken.get', 'UndefinedToken.get'], 'a formula that does not fit the grammar')
+    run.floor('C05.R11', 50)
     run.floor('C05.R10', 2)
     run.floor('C05.R9', 20)
     run.floor('C05.R8', 8)
